@@ -8,13 +8,15 @@ def Consistent (x : Worker) : Prop := x.lock = true ↔ x.pool ≠ none
 /-- program points at which the thread holds the worker's `_states_lock` -/
 def inCS : MPc → Bool
   | .aRdPool | .aTry | .aWr | .aRd2 | .aExit _
-  | .rRdLocked1 | .rRdPool | .rRdLocked2 | .rUnlock | .rWr | .rExit => true
+  | .rRdLocked1 | .rRdPool | .rRdLocked2 | .rUnlock | .rWr | .rExit
+  | .cExit | .iExit | .kExit => true
   | _ => false
 
 /-- What a thread inside the critical section knows about the worker, per program point. -/
 def CS (cl : Call) (x : Worker) : Prop :=
   match cl.pc with
-  | .aRdPool | .aTry | .aRd2 | .aExit _ | .rRdLocked1 | .rRdPool | .rExit => Consistent x
+  | .aRdPool | .aTry | .aRd2 | .aExit _ | .rRdLocked1 | .rRdPool | .rExit
+  | .cExit | .iExit | .kExit => Consistent x
   | .aWr => x.lock = true ∧ x.pool = none
   | .rRdLocked2 => Consistent x ∧ (cl.checked = true → x.lock = true → x.pool = some cl.p)
   | .rUnlock => x.lock = true ∧ x.pool ≠ none ∧ (cl.checked = true → x.pool = some cl.p)
@@ -58,6 +60,9 @@ theorem next1Loop_nonCS (p acq ws un) : (next1Loop p acq ws un).nonCS := by
   · exact next2Loop_nonCS ..
   · simp [next1Loop, Next.nonCS, inCS]
 
+theorem idleLoop_nonCS (p ws acc) : (idleLoop p ws acc).nonCS := by
+  cases ws <;> simp [idleLoop, Next.nonCS, inCS]
+
 theorem resume_nonCS (k : K) (b : Bool) : (resume k b).nonCS := by
   cases k <;> simp only [resume]
   · split
@@ -82,6 +87,19 @@ theorem resume_nonCS (k : K) (b : Bool) : (resume k b).nonCS := by
     · simp [Next.nonCS]
     · exact next2Loop_nonCS ..
   · simp [Next.nonCS]
+  · split
+    · simp [Next.nonCS, inCS]
+    · exact next1Loop_nonCS ..
+  · split
+    · simp [Next.nonCS, inCS]
+    · exact next2Loop_nonCS ..
+  · split
+    · simp [Next.nonCS, inCS]
+    · exact idleLoop_nonCS ..
+  · split
+    · simp [Next.nonCS, inCS]
+    · exact idleLoop_nonCS ..
+  · exact idleLoop_nonCS ..
 
 theorem start_nonCS (pw : Pid → List Wid) (op : Op) : (start pw op).nonCS := by
   cases op <;> simp only [start]
@@ -91,6 +109,8 @@ theorem start_nonCS (pw : Pid → List Wid) (op : Op) : (start pw op).nonCS := b
   · simp [Next.nonCS, inCS]
   · exact origLoop_nonCS ..
   · exact relAllLoop_nonCS ..
+  · exact idleLoop_nonCS ..
+  · simp [Next.nonCS, inCS]
 
 theorem apply_cur_nonCS (th : Thread) (n : Next) (hn : n.nonCS) :
     ∀ cl k, (th.apply n).cur = some (cl, k) → inCS cl.pc = false := by
@@ -380,10 +400,42 @@ theorem Inv_step {pw : Pid → List Wid} {u : Wid → Bool} {c c' : Cfg} {t : Ti
       have hm : mstep u c.W t cl = some (c.W, .ret ((c.W cl.w).pool == some cl.p)) := by simp [mstep, hpc]
       simp only [hm, Option.some.injEq] at h; subst h
       exact keepRet _ (by simp [hpc, inCS])
-    | uRd =>
-      have hm : mstep u c.W t cl = some (c.W, .ret (u cl.w)) := by simp [mstep, hpc]
+    | cEnter =>
+      by_cases hfree : (c.W cl.w).sl = none
+      · have hm : mstep u c.W t cl =
+            some (upd c.W cl.w { c.W cl.w with sl := some t }, .goto .cExit) := by simp [mstep, hpc, hfree]
+        simp only [hm, Option.some.injEq] at h; subst h
+        exact Inv_csEnter hI hcur hfree _ (by intro hc; simpa [CS, Consistent] using hc)
+      · have hm : mstep u c.W t cl = none := by simp [mstep, hpc, hfree]
+        simp [hm] at h
+    | cExit =>
+      have hm : mstep u c.W t cl = some (upd c.W cl.w { c.W cl.w with sl := none }, .ret (u cl.w)) := by simp [mstep, hpc]
       simp only [hm, Option.some.injEq] at h; subst h
-      exact keepRet _ (by simp [hpc, inCS])
+      exact Inv_csExit hI hcur (by simp [hpc, inCS]) _ (by intro hcs; simpa [CS, hpc] using hcs)
+    | iEnter =>
+      by_cases hfree : (c.W cl.w).sl = none
+      · have hm : mstep u c.W t cl =
+            some (upd c.W cl.w { c.W cl.w with sl := some t }, .goto .iExit) := by simp [mstep, hpc, hfree]
+        simp only [hm, Option.some.injEq] at h; subst h
+        exact Inv_csEnter hI hcur hfree _ (by intro hc; simpa [CS, Consistent] using hc)
+      · have hm : mstep u c.W t cl = none := by simp [mstep, hpc, hfree]
+        simp [hm] at h
+    | iExit =>
+      have hm : mstep u c.W t cl = some (upd c.W cl.w { c.W cl.w with sl := none }, .ret (u cl.w)) := by simp [mstep, hpc]
+      simp only [hm, Option.some.injEq] at h; subst h
+      exact Inv_csExit hI hcur (by simp [hpc, inCS]) _ (by intro hcs; simpa [CS, hpc] using hcs)
+    | kEnter =>
+      by_cases hfree : (c.W cl.w).sl = none
+      · have hm : mstep u c.W t cl =
+            some (upd c.W cl.w { c.W cl.w with sl := some t }, .goto .kExit) := by simp [mstep, hpc, hfree]
+        simp only [hm, Option.some.injEq] at h; subst h
+        exact Inv_csEnter hI hcur hfree _ (by intro hc; simpa [CS, Consistent] using hc)
+      · have hm : mstep u c.W t cl = none := by simp [mstep, hpc, hfree]
+        simp [hm] at h
+    | kExit =>
+      have hm : mstep u c.W t cl = some (upd c.W cl.w { c.W cl.w with sl := none }, .ret true) := by simp [mstep, hpc]
+      simp only [hm, Option.some.injEq] at h; subst h
+      exact Inv_csExit hI hcur (by simp [hpc, inCS]) _ (by intro hcs; simpa [CS, hpc] using hcs)
 
 theorem Inv_reach {pw : Pid → List Wid} {c0 c : Cfg} (h0 : Init c0) (h : Reach pw c0 c) : Inv c := by
   induction h with
